@@ -60,6 +60,7 @@ class Stats:
         self.notes = set()
         self.exhaustive = True
         self.deadline = None
+        self.tier = "quick"
 
     def n(self, key, k=1):
         self.counters[key] = self.counters.get(key, 0) + k
@@ -113,6 +114,7 @@ def _worker(args):
     sys.setrecursionlimit(3000)
     st = Stats()
     st.deadline = deadline
+    st.tier = tier
     viols = []
     try:
         mod = importlib.import_module(mod_name)
@@ -274,8 +276,9 @@ def run_check(prop, tier):
     }
     if harness_errors:
         ev["coverage"]["harness_errors"] = [e[-2000:] for e in harness_errors]
-    os.makedirs(os.path.join(VERIF, "evidence"), exist_ok=True)
-    with open(os.path.join(VERIF, "evidence", prop + ".json"), "w") as f:
+    evdir = os.environ.get("VERIF_EVIDENCE_DIR") or os.path.join(VERIF, "evidence")
+    os.makedirs(evdir, exist_ok=True)
+    with open(os.path.join(evdir, prop + ".json"), "w") as f:
         json.dump(ev, f, indent=1, sort_keys=True, default=repr)
         f.write("\n")
 
